@@ -176,6 +176,20 @@ theorem nan_unordered (L : IEEELaws fs) (op : CmpOp) (a b : NumV fs.F)
   · cases b <;> simp_all [specCmp, specOp]
   · cases a <;> simp_all [specCmp, specOp]
 
+/-- … including ITSELF: the model (and, by `genCompareFn_eq_model`, the translated code) is a
+function of the two operand VALUES, so an operand pair that is one NaN object is answered like
+any other NaN pair (`Spec.compare_is_value_level`). An identity shortcut in `Compare`
+(`if a == b { return 0 }`) is not expressible at value level: the translator refuses it, and
+the `same` ops of channel `num` feed one object as both operands to the real code. -/
+theorem nan_self_unordered (L : IEEELaws fs) (op : CmpOp) (store : Nat → NumV fs.F) (i : Nat)
+    (f : fs.F) (hs : store i = .flt f) (hn : fs.isNaN f = true) :
+    compareFn fs op (store i) (store i) = specCompareRef fs L.cmp op store i i ∧
+    compareFn fs op (store i) (store i) = .ok (op == .ne) := by
+  have h := compareFn_spec L op (store i) (store i)
+  refine ⟨h, ?_⟩
+  rw [h]
+  exact spec_nan_self_unordered fs L.cmp op store i f hs hn
+
 /-- For ordered (non-NaN, comparable) operands exactly one of `<`, `==`, `>` holds. -/
 theorem trichotomy (L : IEEELaws fs) (a b : NumV fs.F) (o : Ordering)
     (h : specCmp fs L.cmp a b = some (some o)) :
